@@ -25,7 +25,7 @@ const (
 	inlineMaxStmts = 40
 	// private helpers (CallGraph.Owner == the analysed function)
 	inlinePrivStmts = 150
-	inlinePrivPaths = 96
+	inlinePrivPaths = 2500
 	inlinePrivDepth = 4
 )
 
